@@ -86,7 +86,7 @@ func (s *Server) cmdSetHook(msg *Message) (
 			if vs, s, ok = tokenval(vs); !ok || s == "" {
 				return NOMessage, d, errInvalidNumberOfArguments
 			}
-			v, err := strconv.ParseFloat(s, 64)
+			v, err := parseFloat(s)
 			if err != nil {
 				return NOMessage, d, errInvalidArgument(s)
 			}
